@@ -504,7 +504,24 @@ pub fn check_both(case: &Case, st: &mut Stats, want_c13: bool, want_c02: bool) -
                         }
                     });
                     let stable = matches!(&again, Ok(Ok(r2)) if signature(r2) == sig);
-                    let any_now = lib.iter().filter(|d| acceptable.contains(d.attributes().output())).any(|d| safe(|| d.rewrite(Rewriter::new(&rels))).map_or(false, |r2| signature(&r2) == sig));
+                    // three more rounds: the mismatch must persist in every one of them
+                    let mut identified_later = false;
+                    for _ in 0..3 {
+                        let r3 = safe(|| {
+                            if case.entry_dp {
+                                rel.rewrite_with_differential_privacy(&rels, synth.clone(), pu.clone(), case.dp.params())
+                            } else {
+                                rel.rewrite_as_privacy_unit_preserving(&rels, synth.clone(), pu.clone(), case.dp.params(), Some(strategy))
+                            }
+                        });
+                        let Ok(Ok(r3)) = r3 else { continue };
+                        let s3 = signature(&r3);
+                        if lib.iter().filter(|d| acceptable.contains(d.attributes().output())).any(|d| safe(|| d.rewrite(Rewriter::new(&rels))).map_or(false, |r2| signature(&r2) == s3)) {
+                            identified_later = true;
+                            break;
+                        }
+                    }
+                    let any_now = identified_later;
                     if !stable || any_now {
                         st.class("rewriting_not_stable_between_calls");
                         return out;
